@@ -632,11 +632,13 @@ func (ab *dsAddrBook) setAddrs(p peer.ID, addrs []ma.Multiaddr, ttl time.Duratio
 			}
 		}
 	}
-	// evictNearestUnconnected drops the unconnected entry from pr.Addrs with
-	// the soonest expiry. Returns false when every remaining entry is held by
-	// a live connection, in which case the caller must drop the new addr.
+	var entries []*pb.AddrBookRecord_AddrEntry
+	// evictNearestUnconnected drops the unconnected entry with the soonest
+	// expiry, looking at pr.Addrs and at the entries accepted earlier in this
+	// call. Returns false when every entry is held by a live connection, in
+	// which case the caller must drop the new addr.
 	evictNearestUnconnected := func() bool {
-		victim := -1
+		victim, pending := -1, false
 		var soonest int64
 		for i, a := range pr.Addrs {
 			if ttlIsConnected(time.Duration(a.Ttl)) {
@@ -647,15 +649,27 @@ func (ab *dsAddrBook) setAddrs(p peer.ID, addrs []ma.Multiaddr, ttl time.Duratio
 				soonest = a.Expiry
 			}
 		}
+		for i, a := range entries {
+			if ttlIsConnected(time.Duration(a.Ttl)) {
+				continue
+			}
+			if victim == -1 || a.Expiry < soonest {
+				victim, pending = i, true
+				soonest = a.Expiry
+			}
+		}
 		if victim == -1 {
 			return false
+		}
+		if pending {
+			entries = slices.Delete(entries, victim, victim+1)
+			return true
 		}
 		delete(addrsMap, string(pr.Addrs[victim].Addr))
 		pr.Addrs = slices.Delete(pr.Addrs, victim, victim+1)
 		return true
 	}
 
-	var entries []*pb.AddrBookRecord_AddrEntry
 	for _, incoming := range addrs {
 		existingEntry := updateExisting(incoming)
 
